@@ -94,6 +94,8 @@ def main():
         "distinct_nontrivial": len(ctx.nontrivial), "notes": ctx.notes, "tie_breaks": ctx.tie_breaks,
         "wall_s": round(time.time() - t0, 2),
     }
+    if hasattr(sys, "set_int_max_str_digits"):
+        sys.set_int_max_str_digits(0)   # only now, after the library has run: the result file holds ints of any size
     with open(outfile, "w") as f:
         json.dump(out, f)
 
